@@ -227,6 +227,8 @@ def run_virtual(module, kernel_name, args, T, assign, order, helpers=(), array_a
     g = fn.__globals__
     try:
         for k, v in patch.items():
+            if k not in g:
+                continue      # the kernel module does not use this name (e.g. no per-thread scratch => no get_thread_id)
             saved[k] = g[k]
             g[k] = v
         out = fn(*a2)
